@@ -7,7 +7,7 @@ import zlib
 import common, enc, impl
 import segno
 
-TOP = ['theories/Props/C09.v', 'theories/Tie/TieTables.v']
+TOP = ['theories/Props/C09.v', 'theories/Props/C09_netpbm.v', 'theories/Tie/TieTables.v']
 RULE = ('symbols of sizes 11..45 (and 177 in thorough) x scale {1,2,3,5,8} x border {0,1,2,4,default} x colour sets forcing every PNG colour type / '
         'bit depth and every PAM tuple type; every implementation file is parsed by the extracted INDEPENDENT reader of its format (PNG incl. CRCs; '
         'IDAT inflated with zlib and handed to the reader as the inflate function) and every pixel is compared with the extracted pixel specification; '
@@ -90,6 +90,9 @@ def run(ctx):
         combos = [(s, b) for s in scales for b in borders]
         if not ctx.thorough:
             combos = rng.sample(combos, 5)
+        if size <= 13:
+            # every residue of (row width * bit depth) mod 8: the width is odd, so scales 4 / 8 / 16 hit the byte-aligned rows
+            combos += [(4, 0), (8, 1), (16, 0)]
         for scale, border in combos:
             b = dflt if border is None else border
             bt = '-' if border is None else str(border)
@@ -165,7 +168,7 @@ def run(ctx):
                 model_cmp('xpm', 'w_xpm %s %d %d %s %s %s %s' % (rows, size, scale, bt, ctok(kw.get('dark', '#000')), ctok(kw.get('light', '#fff')), cps('img')),
                           'OK ' + cps(txt))
             # ---- PNG
-            for kw in (png_colors if scale == combos[0][0] and border == combos[0][1] else png_colors[:4]):
+            for kw in (png_colors if (scale == combos[0][0] and border == combos[0][1]) or scale in (4, 8, 16) else png_colors[:4]):
                 out = io.BytesIO()
                 r = impl.call(lambda: q.save(out, kind='png', scale=scale, border=border, **kw))
                 if r[0] != 'ok':
